@@ -328,10 +328,31 @@ def norm_num(x):
     return f"<{type(x).__name__}>"
 
 
+def _numeric_string(x):
+    return isinstance(x, str) and (x[:1] == "D" or "/" in x) and x[1:2] != "" and not x.startswith("<")
+
+
+def _to_fraction(x):
+    if isinstance(x, str):
+        return Fraction(x[1:]) if x.startswith("D") else Fraction(x)
+    return Fraction(x)
+
+
 def num_close(a, b, rel=1e-9) -> bool:
-    """Equality of two normalised numbers: exact unless one of them is a float."""
+    """Equality of two normalised numbers: exact unless one of them is a float (relative
+    tolerance ``rel``) or a Decimal (28 significant digits: relative tolerance 1e-20)."""
     if type(a) is list and type(b) is list:
         return len(a) == len(b) and all(num_close(x, y, rel) for x, y in zip(a, b))
+    if not isinstance(a, float) and not isinstance(b, float) and (_numeric_string(a) or _numeric_string(b)):
+        try:
+            fa, fb = _to_fraction(a), _to_fraction(b)
+        except Exception:
+            return a == b
+        if fa == fb:
+            return True
+        if (isinstance(a, str) and a.startswith("D")) or (isinstance(b, str) and b.startswith("D")):
+            return abs(fa - fb) <= Fraction(1, 10**20) * max(abs(fa), abs(fb))
+        return False
     if isinstance(a, float) or isinstance(b, float):
         try:
             fa, fb = _as_float(a), _as_float(b)
@@ -364,6 +385,8 @@ def answers_equal(a, b, rel=1e-9) -> bool:
     if isinstance(a, (int, float)) and not isinstance(a, bool) or isinstance(b, float):
         if isinstance(b, (int, float, str)) and not isinstance(b, bool):
             return num_close(a, b, rel)
+    if _numeric_string(a) and (_numeric_string(b) or (isinstance(b, (int, float)) and not isinstance(b, bool))):
+        return num_close(a, b, rel)
     return a == b
 
 
